@@ -173,7 +173,7 @@ func (w *worker) runCore(f []string) string {
 			return fmt.Sprintf("keys=%d", len(out))
 		}
 		for k, v := range out {
-			return fmt.Sprintf("k=%s bin=%d", common.HexS(k), b01(len(v) == 1 && v[0] == "value"))
+			return fmt.Sprintf("key %s bin=%d", common.HexS(k), b01(len(v) == 1 && v[0] == "value"))
 		}
 	case "wserr":
 		err, ok := errKind(f[1])
